@@ -549,6 +549,7 @@ func runScenario(r *hx.Run, sc *scenario) {
 	checkE2EWellformed(r, sc, idx, digests, witness)
 	opIndexFromStore(r, idx, digests)
 	opFlat(r, sc.layers, flat)
+	opE2EModel(r, sc, idx, fl, digests, flat)
 	if len(extra) == 0 && len(missing) == 0 {
 		if sc.Tame {
 			r.Count("e2e:tame:equal")
